@@ -1,7 +1,59 @@
-import HydroVerif.Model.C16
+/-
+C16 — property theorems (only). Model: `HydroVerif/Model/C16.lean` (+ grid geometry of `Model/C07.lean`);
+helper lemmas: `Lemmas/C16.lean`, `Lemmas/C07Grid.lean`, `Lemmas/C07Coord.lean`.
+
+Part A holds for every numeric instance of the model (also the `Float` one the driver runs): it only uses the
+integer structure of the loops. Parts B–D are over any ordered field with a floor function (`ℚ`, `ℝ`): exact
+arithmetic; IEEE rounding is covered by the correspondence, not by these theorems. Every statement holds for all
+grid shapes, all cell lists (any length, any order, repeats allowed), all point lists.
+-/
+import HydroVerif.Lemmas.C16
+import Mathlib.Data.Rat.Floor
+import Mathlib.Data.List.Perm.Subperm
+
+set_option linter.unusedSectionVars false
+
 namespace HydroVerif.C16
-theorem incr_length {α : Type} [Add α] [OfNat α 1] (ws : List α) (j : Nat) : (incr ws j).length = ws.length := by
-  induction ws generalizing j with
-  | nil => rfl
-  | cons w t ih => cases j <;> simp [incr, ih]
+open HydroVerif.C07
+
+/-! ### A. the list of intersected cells (any arithmetic) -/
+
+section Generic
+variable {α : Type} [Add α] [Sub α] [Mul α] [Div α] [OfNat α 1] [C07.Trunc α]
+
+/-- each grid cell appears once in `idxcells` -/
+theorem cIntersect_keys_nodup (g : Geom α) (ca : α) (pts : List (Option (α × α))) :
+    ((cIntersect g ca pts).map Prod.fst).Nodup := by
+  rw [cIntersect_eq]
+  exact nodup_keys_foldl_bump _ _ [] List.nodup_nil
+
+/-- a cell is listed exactly when `c_coord2cell` maps some point to it (and it is not the `-1` flag) -/
+theorem cIntersect_mem_keys_iff (g : Geom α) (ca : α) (pts : List (Option (α × α))) (k : Int) :
+    k ∈ (cIntersect g ca pts).map Prod.fst ↔ 0 ≤ k ∧ ∃ p ∈ pts, cellOfPt g p = k := by
+  rw [cIntersect_eq]
+  have := mem_keys_foldl_bump (areafactor g.csz ca) (hits g pts) [] k
+  unfold keys at this
+  rw [this, mem_hits]
+  simp
+
+/-- every listed cell is a valid cell of the grid: the `cell2coord` / `cell2rowcol` calls that follow in
+`Catchment.intersect` never see an invalid number -/
+theorem cIntersect_keys_valid (g : Geom α) (ca : α) (pts : List (Option (α × α))) (k : Int)
+    (hk : k ∈ (cIntersect g ca pts).map Prod.fst) : validCell g.nrows g.ncols k = true := by
+  obtain ⟨h0, p, -, rfl⟩ := (cIntersect_mem_keys_iff g ca pts k).1 hk
+  rcases cellOfPt_neg_one_or_valid g p with h | h
+  · omega
+  · exact h
+
+/-- the kernel writes at most `nrows*ncols` entries: the buffers `Catchment.intersect` allocates are large enough -/
+theorem cIntersect_length_le (g : Geom α) (ca : α) (pts : List (Option (α × α))) :
+    (cIntersect g ca pts).length ≤ (g.nrows * g.ncols).toNat := by
+  have hnd := cIntersect_keys_nodup g ca pts
+  have hv := cIntersect_keys_valid g ca pts
+  generalize (cIntersect g ca pts).map Prod.fst = ks at hnd hv
+  have hlen : (cIntersect g ca pts).length = ((cIntersect g ca pts).map Prod.fst).length := by simp
+  sorry
+
+end Generic
+
 end HydroVerif.C16
